@@ -126,6 +126,12 @@ def vertical_profiles(
     # OAAHOC path where z0/aa/bb may have extra dimensions from tke broadcast.
     zeta = np.arange(0.0, np.squeeze(zetamx).item() + dzeta, dzeta)
 
+    # The mapping z(zeta) diverges at zeta = aa. A last node that steps past
+    # zetamx up to (or beyond) that asymptote would be inf/NaN; put it at the
+    # domain height instead.
+    if zeta.size and zeta[-1] >= np.squeeze(aa).item():
+        zeta[-1] = np.squeeze(zetamx).item()
+
     z = -h * np.log(-(zeta - aa) / bb)
 
     # Compute wind and eddy diffusivity profiles
